@@ -302,7 +302,7 @@ def run_case(case, want_labels=False):
     if case.get("policy") == "np":
         # non pre-emptive base schedule (run a thread until it blocks) + forced pre-emptions
         pre = {int(k): int(t) for k, t in case.get("preempt", [])}
-        order = [A, W, R, C, EMIT]
+        order = [int(a) for a in case.get("order", [A, W, R, C, EMIT])]
 
         def can(a):
             if a == EMIT:
@@ -310,7 +310,7 @@ def run_case(case, want_labels=False):
             if a == W and idle_writer(s, dev):
                 return False
             return s.enabled(TNAME[a])
-        curt = A
+        curt = order[0]
         alone = 0
         while True:
             k = len(sched)
@@ -318,7 +318,8 @@ def run_case(case, want_labels=False):
                 curt = pre[k]
             if not can(curt):
                 i = order.index(curt)
-                nxt = [order[(i + j) % 5] for j in range(1, 6) if can(order[(i + j) % 5])]
+                n_ = len(order)
+                nxt = [order[(i + j) % n_] for j in range(1, n_ + 1) if can(order[(i + j) % n_])]
                 if not nxt:
                     if quiescent_or_stuck() == "stop":
                         break
@@ -329,10 +330,7 @@ def run_case(case, want_labels=False):
                     continue
                 curt = nxt[0]
             do(curt)
-            if curt == EMIT:
-                curt = A
-                alone = 0
-            elif curt == A:
+            if curt == A:
                 alone += 1
                 if alone % 64 == 0:
                     do(TICK)    # a thread spinning on its own must not stop the clock
